@@ -1,7 +1,7 @@
 (* Verify/StatusRun.v — evaluation of per-run case files for the revocation-status model
    (property C09).  No proofs here.
 
-   Four kinds of cases, each carrying what /repo's implementation did:
+   Five kinds of cases, each carrying what /repo's implementation did:
 
      CValidate  one call of verifiable.ValidateCredentialStatus with a stub resolver
                 registry (built by a sequence of Register/Delete calls) whose selected
@@ -11,6 +11,8 @@
                 verifiable/verif_hooks_c09.go) and the class of the final result.
      CHttp      one call of IssuerResolver.Resolve against a stub http.RoundTripper.
      CCoerce    one call of coerceCredentialStatus.
+     CE2E       ValidateCredentialStatus -> registry -> IssuerResolver.Resolve -> stub
+                transport, i.e. the composition of the above through real JSON.
      CHex       one call of merkletree.NewHashFromHex (validates the model's `hexf`
                 abstraction: Status.hex_decode is the model of that library function).
 
@@ -117,7 +119,12 @@ Inductive scase :=
 | CHttp (id : int) (transport_ok : bool) (code : limbs) (len : limbs) (read_ok : bool)
     (parsed : option raw_answer) (close_ok : bool) (obs : hobs)
 | CCoerce (id : int) (sh : raw_shape) (obs : cobs)
-| CHex (id : int) (s : string) (obs : raw_hexf).
+| CHex (id : int) (s : string) (obs : raw_hexf)
+| CE2E (id : int) (tab : raw_tab) (ty : string) (nonce : limbs)
+    (* ValidateCredentialStatus with IssuerResolver registered for ty in the default
+       registry and a stub transport answering (code, body): len = size of the body,
+       parsed = json.Unmarshal of the whole body *)
+    (code : limbs) (len : limbs) (parsed : option raw_answer) (o_cls : int).
 
 Definition case_id (c : scase) : int :=
   match c with
@@ -125,6 +132,7 @@ Definition case_id (c : scase) : int :=
   | CHttp id _ _ _ _ _ _ _ => id
   | CCoerce id _ _ => id
   | CHex id _ _ => id
+  | CE2E id _ _ _ _ _ _ _ => id
   end.
 
 (* ---- comparison helpers ---- *)
@@ -220,6 +228,19 @@ Definition agree (c : scase) : bool :=
       | _, _ => false
       end
   | CHex _ s obs => hexf_eqb (hex_decode s) (hexf_of obs)
+  | CE2E _ tab ty nonce code len parsed o_cls =>
+      let t := mk_tab tab in
+      let P := fun l => lookp l t in
+      let n := z_of_limbs nonce in
+      let h := HResp (z_of_limbs code) (z_of_limbs len) true (option_map answer_of parsed) true in
+      let rslv := http_resolver h in
+      let missed := match http_resolve h with
+                    | Ok a => ts_miss P (a_issuer a)
+                              || match root_from_mtp P q (Some (a_mtp a)) n 0 with
+                                 | Ok r => r =? miss | _ => false end
+                    | _ => false end in
+      Uint63.eqb (cls_of (validate_credential_status P q (reg_register [] ty rslv) [] (mkcs ty n))) o_cls
+      && negb missed
   end.
 End Eval.
 
